@@ -380,7 +380,26 @@ func TestC09_Stream(t *testing.T) {
 
 // ---------------------------------------------------------------- T4 settings text
 
-var settingsLines = []string{"[DEFAULT]", "[SESSION]", "[default]", "[Session]", "[SESSION] ", "[OTHER]", "BeginString=FIX.4.2", "BeginString=FIX.9.9", "BeginString=FIXT.1.1", "SenderCompID=A", "TargetCompID=B",
+// settingKeys: every key is read through every typed accessor (present or not, well-typed or not).
+var settingKeys = []string{"BeginString", "SenderCompID", "TargetCompID", "SessionQualifier", "HeartBtInt", "ConnectionType", "ResetOnLogon", "ResetOnLogout", "ResetOnDisconnect", "RefreshOnLogon",
+	"PersistMessages", "CheckLatency", "MaxLatency", "StartTime", "EndTime", "StartDay", "EndDay", "Weekdays", "TimeZone", "SocketAcceptPort", "SocketConnectPort", "SocketConnectHost", "ReconnectInterval",
+	"LogonTimeout", "LogoutTimeout", "ResendRequestChunkSize", "TimeStampPrecision", "DataDictionary", "RejectInvalidMessage", "EnableLastMsgSeqNumProcessed", "HeartBtIntOverride", "DynamicSessions", "ResetSeqTime", "Key", "key"}
+
+type nopApp struct{}
+
+func (nopApp) OnCreate(quickfix.SessionID)                       {}
+func (nopApp) OnLogon(quickfix.SessionID)                        {}
+func (nopApp) OnLogout(quickfix.SessionID)                       {}
+func (nopApp) ToAdmin(*quickfix.Message, quickfix.SessionID)     {}
+func (nopApp) ToApp(*quickfix.Message, quickfix.SessionID) error { return nil }
+func (nopApp) FromAdmin(*quickfix.Message, quickfix.SessionID) quickfix.MessageRejectError {
+	return nil
+}
+func (nopApp) FromApp(*quickfix.Message, quickfix.SessionID) quickfix.MessageRejectError { return nil }
+
+var settingsLines = []string{"ResetOnLogon=", "ResetOnLogon=Y", "ResetOnLogout=n", "PersistMessages=", "HeartBtInt=", "HeartBtInt=x", "HeartBtInt=-5", "HeartBtInt=9223372036854775807", "MaxLatency=", "LogonTimeout=1h", "LogonTimeout=",
+	"StartTime=09:00:00", "EndTime=", "EndTime=25:00:00", "StartDay=Mon", "EndDay=", "Weekdays=Mon,,Tue", "TimeZone=Nowhere/Land", "TimeZone=", "SocketAcceptPort=", "SocketAcceptPort=99999", "SocketConnectPort=5001", "SocketConnectHost=",
+	"ResendRequestChunkSize=-1", "TimeStampPrecision=", "TimeStampPrecision=PICOS", "DataDictionary=", "DataDictionary=/nonexistent.xml", "ResetSeqTime=", "ResetSeqTime=12:00", "DynamicSessions=Y", "ConnectionType=acceptor", "ConnectionType=", "[DEFAULT]", "[SESSION]", "[default]", "[Session]", "[SESSION] ", "[OTHER]", "BeginString=FIX.4.2", "BeginString=FIX.9.9", "BeginString=FIXT.1.1", "SenderCompID=A", "TargetCompID=B",
 	"SenderCompID=", "=value", "noequals", "key=val=ue", "# comment", "", "   ", "SessionQualifier=q", "HeartBtInt=30", "[", "]", "[SESSION", "\tKey = spaced ", "TargetCompID=B\r", "ConnectionType=initiator"}
 
 func TestC09_Settings(t *testing.T) {
@@ -396,6 +415,16 @@ func TestC09_Settings(t *testing.T) {
 					lines = append(lines, rapid.SampledFrom(settingsLines).Draw(t, "line"))
 				}
 			}
+			if rapid.Bool().Draw(t, "sound-skeleton") {
+				// a sound file (engines can be built from it) with the generated lines inserted into it
+				skel := []string{"[DEFAULT]", "ConnectionType=" + rapid.SampledFrom([]string{"acceptor", "initiator"}).Draw(t, "role"), "SocketAcceptPort=5001", "SocketConnectHost=127.0.0.1", "SocketConnectPort=5002", "HeartBtInt=30",
+					"[SESSION]", "BeginString=" + rapid.SampledFrom([]string{"FIX.4.2", "FIX.4.4", "FIXT.1.1"}).Draw(t, "begin"), "SenderCompID=A", "TargetCompID=B", "DefaultApplVerID=9"}
+				for _, l := range lines {
+					at := rapid.IntRange(1, len(skel)).Draw(t, "at")
+					skel = append(skel[:at], append([]string{l}, skel[at:]...)...)
+				}
+				lines = skel
+			}
 			text := strings.Join(lines, rapid.SampledFrom([]string{"\n", "\n", "\r\n"}).Draw(t, "eol"))
 			c.Eval()
 			c.Class("target:settings")
@@ -406,8 +435,42 @@ func TestC09_Settings(t *testing.T) {
 			}
 			if err == nil && s != nil {
 				c.Class("settings:accepted")
-				if p := catch(func() { _ = s.GlobalSettings(); _ = s.SessionSettings() }); p != nil {
+				if p := catch(func() {
+					all := []*quickfix.SessionSettings{s.GlobalSettings()}
+					for _, ss := range s.SessionSettings() {
+						all = append(all, ss)
+					}
+					for _, ss := range all {
+						for _, k := range settingKeys {
+							_ = ss.HasSetting(k)
+							_, _ = ss.Setting(k)
+							_, _ = ss.RawSetting(k)
+							_, _ = ss.IntSetting(k)
+							_, _ = ss.BoolSetting(k)
+							_, _ = ss.DurationSetting(k)
+						}
+					}
+				}); p != nil {
 					c09fail(t, "settings", "accessor-panic/"+panicClass(p), []byte(text), fmt.Sprintf("settings accessor panicked: %v", p))
+				}
+				// the settings are what engines are built from: building (not starting) one must
+				// answer with an engine or an error
+				if p := catch(func() {
+					// (sessions register globally when an engine is built: one engine per case, unregistered afterwards)
+					defer func() {
+						for id := range s.SessionSettings() {
+							_ = quickfix.UnregisterSession(id)
+						}
+					}()
+					if strings.Contains(text, "ConnectionType=initiator") {
+						if i, e := quickfix.NewInitiator(nopApp{}, quickfix.NewMemoryStoreFactory(), s, quickfix.NewNullLogFactory()); e == nil && i != nil {
+							c.Class("settings:initiator-built")
+						}
+					} else if a, e := quickfix.NewAcceptor(nopApp{}, quickfix.NewMemoryStoreFactory(), s, quickfix.NewNullLogFactory()); e == nil && a != nil {
+						c.Class("settings:acceptor-built")
+					}
+				}); p != nil {
+					c09fail(t, "settings", "engine-construction-panic/"+panicClass(p), []byte(text), fmt.Sprintf("building an engine from the settings panicked: %v", p))
 				}
 			}
 			if strings.Contains(text, "[") {
